@@ -320,40 +320,55 @@ func runDynamic(id string, args []string) {
 	if len(samples) == 0 {
 		samples = append(samples, sample{Decl: "(no concurrent case in this selection)"})
 	}
-	// conformance pass (DESIGN §2.7): explored traces replayed on the uninstrumented artefact under -race
+	// conformance pass (DESIGN §2.7): explored traces replayed on the uninstrumented artefact under -race.
+	// It decides whether SILENCE can be trusted. Violations found by the explorer carry their own replayable
+	// schedule and are reported whatever this pass says (a change that introduces a data race also makes the
+	// race detector speak up here, which is agreement, not a machinery failure).
+	haveViolations := rc.Unsuppressed() > 0
+	confFail := func(msg string) {
+		if haveViolations {
+			rc.Notes = append(rc.Notes, "conformance pass: "+msg+" (violations below are reported from the exploration itself)")
+			return
+		}
+		fmt.Println(msg)
+		os.Exit(2)
+	}
+	conf := &pipe.ConformResult{}
 	if _, err := env.BuildFreeRunner(corpus); err != nil {
-		fmt.Println("CONFORMANCE-FAILED (machinery, not a verdict):", err)
-		os.Exit(2)
-	}
-	var confPkgs []string
-	for _, pkg := range corpus.FreePkgs() {
-		if it := corpus.ByPkg[pkg]; it != nil && prop.applies(it) {
-			confPkgs = append(confPkgs, pkg)
+		confFail(fmt.Sprint("CONFORMANCE-FAILED (machinery, not a verdict): ", err))
+	} else {
+		var confPkgs []string
+		for _, pkg := range corpus.FreePkgs() {
+			if it := corpus.ByPkg[pkg]; it != nil && prop.applies(it) {
+				confPkgs = append(confPkgs, pkg)
+			}
 		}
-	}
-	nConf, perSet := 24, 6
-	if rc.Thorough() {
-		nConf, perSet = 160, 10
-	}
-	confPkgs = pick(confPkgs, nConf, rc.Seed)
-	confFams := fams
-	if id == "C08" && !rc.Thorough() {
-		confFams = "fault,cancel"
-	}
-	conf, cerr := env.Conform(corpus, confPkgs, confFams, rc.Thorough(), perSet)
-	if cerr != nil {
-		fmt.Println("CONFORMANCE-FAILED (machinery, not a verdict):", cerr)
-		os.Exit(2)
-	}
-	if len(conf.Mismatches) > 0 || len(conf.RaceReports) > 0 {
-		for _, m := range conf.Mismatches {
-			fmt.Println("CONFORMANCE-MISMATCH:", m)
+		nConf, perSet := 24, 6
+		if rc.Thorough() {
+			nConf, perSet = 160, 10
 		}
-		for _, m := range conf.RaceReports {
-			fmt.Println("CONFORMANCE-MISMATCH: the race detector reports a data race the explorer does not find:", m)
+		confPkgs = pick(confPkgs, nConf, rc.Seed)
+		confFams := fams
+		if id == "C08" && !rc.Thorough() {
+			confFams = "fault,cancel"
 		}
-		fmt.Println("the instrumented model does not represent the generated code faithfully; no verdict is given")
-		os.Exit(2)
+		c2, cerr := env.Conform(corpus, confPkgs, confFams, rc.Thorough(), perSet)
+		switch {
+		case cerr != nil:
+			confFail(fmt.Sprint("CONFORMANCE-FAILED (machinery, not a verdict): ", cerr))
+		case len(c2.Mismatches) > 0 || len(c2.RaceReports) > 0:
+			conf = c2
+			var msgs []string
+			for _, m := range c2.Mismatches {
+				msgs = append(msgs, "CONFORMANCE-MISMATCH: "+m)
+			}
+			for _, m := range c2.RaceReports {
+				msgs = append(msgs, "CONFORMANCE-MISMATCH: the race detector reports a data race the explorer does not find: "+m)
+			}
+			confFail(strings.Join(msgs, "\n") + "\nthe instrumented model does not represent the generated code faithfully; no verdict is given")
+		default:
+			conf = c2
+		}
 	}
 	rc.Coverage["conformance"] = map[string]any{"cases": conf.Cases, "trace_sets_enumerated_without_pruning": conf.TraceSets, "trace_sets_skipped_cap": conf.SkippedCap, "traces_forced_on_real_injector": conf.Forced, "validated": conf.Validated, "inconclusive": conf.Inconclusive, "samples": conf.Samples,
 		"how": "every selected case: ALL (provider-level trace, outcome) pairs enumerated by an unpruned exploration; a spread of traces is forced on the byte-identical generated file (real errgroup/channels/context, -race) by gating the provider stubs, up to the first cancellation or provider failure; the observed trace and outcome must be among the enumerated pairs and the race detector must stay silent where the explorer found no race"}
